@@ -36,22 +36,26 @@ theorem linPayload_src (pre p post : Bytes) (hmem : (pre ++ p ++ post).length < 
       some (if p.length < 2 ∨ p.length - 2 < byteAt p 1 then none else some ⟨p, 0x0304⟩) :=
   getLinPayload_src pre p post hmem
 
-theorem cmPayload_src (pre p post : Bytes) :
+/-- `GetCaptureModulePayload`: null unless the serial number and version fields (bytes 8..17) are there AND the vendor data the
+    generic part declares (u16 @4, big-endian; it starts behind the 12 generic bytes) lies inside the payload -/
+theorem cmPayload_src (pre p post : Bytes) (hmem : (pre ++ p ++ post).length < 2 ^ 64) :
     TECMP_Decoder_GetCaptureModulePayload_obj (pre ++ p ++ post) pre.length p.length =
-      some (if p.length < 18 then none else some ⟨p, 0x0100⟩) :=
-  getCmPayload_src pre p post
+      some (if p.length < 18 ∨ p.length - 12 < beAt p 4 2 then none else some ⟨p, 0x0100⟩) :=
+  getCmPayload_src pre p post hmem
 
-/-- `GetInterfacePayload`: one 28-byte object per COMPLETE 12-byte entry behind the 12 generic bytes (generic bytes, entry, four
-    zero bytes), for any sufficient fuel -/
-theorem busPayload_src (pre p post H : Bytes) (fuel : Nat) (hmem : p.length + 12 < 2 ^ 64) (hH : 28 ≤ H.length)
+/-- `GetInterfacePayload`: one 28-byte object per COMPLETE entry behind the 12 generic bytes — an entry is 12 bytes followed by the
+    vendor data whose length the generic part declares (u16 @4, big-endian) — holding the generic bytes, the entry's first 12
+    bytes and four zero bytes, for any sufficient fuel.  `hmem`: the loop adds the entry size to the running offset in `size_t`;
+    the sum cannot wrap exactly when payload size + 12 + declared vendor data length stays below 2^64. -/
+theorem busPayload_src (pre p post H : Bytes) (fuel : Nat) (hmem : p.length + 12 + beAt p 4 2 < 2 ^ 64) (hH : 28 ≤ H.length)
     (hmt : byteAt H 5 = 2) (hf : p.length / 12 + 1 ≤ fuel) :
     TECMP_Decoder_GetInterfacePayload_obj fuel (pre ++ p ++ post) pre.length p.length H =
-      some (if p.length < 12 then [] else busPl p (p.length / 12 + 1) 12) :=
+      some (if p.length < 12 then [] else busPl p (beAt p 4 2) (p.length / 12 + 1) 12) :=
   getInterfacePayload_src pre p post H fuel hmem hH hmt hf
 
 /-- `HandlePayload`: the list of payload objects by message type (and data type) of the header -/
 theorem handlePayload_src' (pre p post H : Bytes) (fuel : Nat) (hmem : (pre ++ p ++ post).length < 2 ^ 64)
-    (hp12 : p.length + 12 < 2 ^ 64) (hH : 28 ≤ H.length) (hf : p.length / 12 + 1 ≤ fuel) :
+    (hp12 : byteAt H 5 = 2 → p.length + 12 + beAt p 4 2 < 2 ^ 64) (hH : 28 ≤ H.length) (hf : p.length / 12 + 1 ≤ fuel) :
     TECMP_Decoder_HandlePayload_obj fuel (pre ++ p ++ post) pre.length p.length H = some (handleR H p) :=
   handlePayload_src pre p post H fuel hmem hp12 hH hf
 
@@ -92,12 +96,16 @@ theorem convert_null (H : Bytes) (hH : 28 ≤ H.length) :
 
 /-- `TECMP::Decoder::Decode` on the buffer `b` at the non-null address `pre.length` of any memory that fits the address space:
     defined, and exactly the model's packets (every returned pointer non-null).  In particular everything behind the 28-byte header
-    (`b.drop 28`, not the declared `plen` bytes) is handed to the payload parsers.  Full strength: no hypothesis on `b`.
+    (`b.drop 28`, not the declared `plen` bytes) is handed to the payload parsers.  No hypothesis on the CONTENT of `b`.
     (`hpre` is not used by the proof — in the flat memory of `Src/Sem.lean` address 0 is an ordinary index and `Decode` itself
     never tests `data` — it is kept so that the statement claims nothing about a null `data`; `hf`: any fuel ≥ `b.length`, the
-    bus loop needs `(b.length - 28) / 12 + 1`.) -/
+    bus loop needs `(b.length - 28) / 12 + 1`.  `hsz`, new with the per-entry vendor data: the bus-status loop tests
+    `busDataOffset + entrySize <= size` in `size_t`, `entrySize = 12 + vendorDataLength` (u16 @32 of the buffer); for a bus-status
+    message the sum stays below 2^64 — the test means what it says — exactly when payload size (`b.length - 28`) + 12 + the
+    declared vendor data length does.  Every buffer of less than 2^64 − 2^16 bytes satisfies it: `tecmpDecode_src_small`.) -/
 theorem tecmpDecode_src (pre b post : Bytes) (fuel : Nat) (hpre : 0 < pre.length)
-    (hmem : (pre ++ b ++ post).length < 2 ^ 64) (hf : b.length ≤ fuel) :
+    (hmem : (pre ++ b ++ post).length < 2 ^ 64) (hf : b.length ≤ fuel)
+    (hsz : byteAt b 5 = 2 → b.length - 16 + beAt b 32 2 < 2 ^ 64) :
     TECMP_Decoder_Decode_obj fuel (pre ++ b ++ post) pre.length b.length =
       some ((tecmpDecode b).map fun p => some (tRepr p)) := by
   have hb := mem_lt pre b post hmem
@@ -123,7 +131,10 @@ theorem tecmpDecode_src (pre b post : Bytes) (fuel : Nat) (hpre : 0 < pre.length
       have hlen : (pre ++ b ++ post).length = pre.length + b.length + post.length := by simp only [List.length_append]
       have hpl : (b.drop 28).length = b.length - 28 := List.length_drop
       have hh := handlePayload_src (pre ++ b.take 28) (b.drop 28) post (b.take 28) fuel (by rw [← hM]; exact hmem)
-        (by omega) hH (by omega)
+        (by intro h2
+            rw [byteAt_take b 28 5 (by omega)] at h2
+            have := hsz h2
+            rw [beAt_drop, hpl, show 28 + 4 = 32 from rfl]; omega) hH (by omega)
       rw [← hM, ← hL, ← hS] at hh
       simp only [hd, Bool.false_eq_true, if_false, hh, some_bind]
       have hconv := convertPackets_src (b.take 28) (convF b) _ (convert_all b h28 (by omega))
@@ -134,32 +145,62 @@ theorem tecmpDecode_src (pre b post : Bytes) (fuel : Nat) (hpre : 0 < pre.length
         rw [hl] at hconv
         simp only [List.isEmpty_cons, Bool.false_eq_true, if_false, hconv, some_bind]
 
+/-- the size hypothesis of `tecmpDecode_src` holds for every buffer that ends at least 2^16 bytes below the top of the address
+    space, whatever it contains -/
+theorem tecmpDecode_src_small (pre b post : Bytes) (fuel : Nat) (hpre : 0 < pre.length)
+    (hmem : (pre ++ b ++ post).length < 2 ^ 64) (hf : b.length ≤ fuel) (hsz : b.length + 2 ^ 16 ≤ 2 ^ 64) :
+    TECMP_Decoder_Decode_obj fuel (pre ++ b ++ post) pre.length b.length =
+      some ((tecmpDecode b).map fun p => some (tRepr p)) :=
+  tecmpDecode_src pre b post fuel hpre hmem hf (fun _ => by have := C03.beAt_lt b 32 2; omega)
+
 /-- a CAN-FD message: 28 header bytes (device 7, message type 3, data type 3, interface id 0x11223344, declared length 5),
     arbitration id, length byte 12, 12 data bytes, 3 crc bytes, one trailing byte -/
 def exCanFd : Bytes :=
   [0, 7, 0, 9, 3, 3, 0, 3, 0, 0, 0, 0, 0x11, 0x22, 0x33, 0x44, 1, 2, 3, 4, 5, 6, 7, 8, 0, 5, 0, 0,
    0x9A, 0xBC, 0xDE, 0xF1, 12, 1, 2, 3, 4, 5, 6, 7, 8, 9, 10, 11, 12, 0xAA, 0xBB, 0xCC, 4]
 
-/-- a bus status message: header (message type 2), 12 generic bytes, two complete entries and a partial third -/
+/-- a bus status message: header (message type 2), 12 generic bytes (declaring no vendor data), two complete entries and a
+    partial third -/
 def exBus : Bytes :=
   [0, 7, 0, 9, 3, 2, 0, 0, 0, 0, 0, 0, 0x11, 0x22, 0x33, 0x44, 1, 2, 3, 4, 5, 6, 7, 8, 0, 5, 0, 0] ++
-    List.replicate 12 1 ++ List.replicate 12 2 ++ List.replicate 12 3 ++ List.replicate 7 4
+    [1, 1, 1, 1, 0, 0, 1, 1, 1, 1, 1, 1] ++ List.replicate 12 2 ++ List.replicate 12 3 ++ List.replicate 7 4
+
+/-- a bus status message whose generic part declares 4 vendor bytes per entry: three entries of 16 bytes (interfaces 0x0A, 0x0B,
+    0x0C) and 15 bytes of an incomplete fourth -/
+def exBusV : Bytes :=
+  [0, 7, 0, 9, 3, 2, 0, 0, 0, 0, 0, 0, 0x11, 0x22, 0x33, 0x44, 1, 2, 3, 4, 5, 6, 7, 8, 0, 5, 0, 0] ++
+    [0x0C, 1, 2, 0, 0, 4, 0, 7, 0, 0, 0, 99] ++
+    [0, 0, 0, 0x0A, 0, 0, 0, 100, 0, 0, 0, 1, 1, 200, 0, 5] ++ [0, 0, 0, 0x0B, 0, 0, 0, 200, 0, 0, 0, 2, 1, 201, 0, 6] ++
+    [0, 0, 0, 0x0C, 0, 0, 1, 44, 0, 0, 0, 3, 1, 202, 0, 7] ++ List.replicate 15 9
 
 /-- the hypotheses of the main theorem are satisfiable on non-trivial buffers, and the model's answer there is not empty -/
 example : TECMP_Decoder_Decode_obj 49 ([9] ++ exCanFd ++ [5, 5]) 1 49 = some ((tecmpDecode exCanFd).map fun p => some (tRepr p)) :=
-  tecmpDecode_src [9] exCanFd [5, 5] 49 (by decide) (by decide) (by decide)
+  tecmpDecode_src [9] exCanFd [5, 5] 49 (by decide) (by decide) (by decide) (by decide)
 example : (tecmpDecode exCanFd).map (fun p => (p.payload.map (·.ty), p.deviceId, p.ifId)) = [(some tyCanFd, 7, 0x11223344)] := by decide
 example : TECMP_Decoder_Decode_obj 100 ([9] ++ exBus ++ []) 1 71 = some ((tecmpDecode exBus).map fun p => some (tRepr p)) :=
-  tecmpDecode_src [9] exBus [] 100 (by decide) (by decide) (by decide)
+  tecmpDecode_src [9] exBus [] 100 (by decide) (by decide) (by decide) (by decide)
 example : (tecmpDecode exBus).map (fun p => (p.payload.map (·.ty), p.ifId)) = [(some tyIf, 0x02020202), (some tyIf, 0x03030303)] := by
+  decide
+example : TECMP_Decoder_Decode_obj 120 ([9] ++ exBusV ++ [7]) 1 103 = some ((tecmpDecode exBusV).map fun p => some (tRepr p)) :=
+  tecmpDecode_src [9] exBusV [7] 120 (by decide) (by decide) (by decide) (by decide)
+/-- three entries of 12 + 4 bytes: exactly three packets, interface ids and counters from each entry's first 12 bytes -/
+example : (tecmpDecode exBusV).map (fun p => (p.payload.map (·.ty), p.ifId,
+      p.payload.map fun pl => (beAt pl.data 0 4, beAt pl.data 4 4, beAt pl.data 20 4))) =
+    [(some tyIf, 0x0A, some (0x0A, 100, 1)), (some tyIf, 0x0B, some (0x0B, 200, 2)), (some tyIf, 0x0C, some (0x0C, 300, 3))] := by
   decide
 /-- … and of the branch theorems -/
 example : TECMP_Converter_ConvertCanPayload_obj (exCanFd.take 28) (some ⟨exCanFd.drop 28, 0x0302⟩) =
     some (some (tpkt (exCanFd.take 28) (beAt (exCanFd.take 28) 12 4) (some (canPl (exCanFd.drop 28))))) :=
   convertCan_src' _ _ _ (by decide) (by decide) (by decide) (by decide)
 example : TECMP_Decoder_GetInterfacePayload_obj 5 ([9] ++ exBus.drop 28 ++ []) 1 43 (exBus.take 28) =
-    some (if (exBus.drop 28).length < 12 then [] else busPl (exBus.drop 28) ((exBus.drop 28).length / 12 + 1) 12) :=
+    some (if (exBus.drop 28).length < 12 then [] else
+      busPl (exBus.drop 28) (beAt (exBus.drop 28) 4 2) ((exBus.drop 28).length / 12 + 1) 12) :=
   busPayload_src [9] (exBus.drop 28) [] (exBus.take 28) 5 (by decide) (by decide) (by decide) (by decide)
+example : TECMP_Decoder_GetInterfacePayload_obj 8 ([9] ++ exBusV.drop 28 ++ [7]) 1 75 (exBusV.take 28) =
+    some (if (exBusV.drop 28).length < 12 then [] else
+      busPl (exBusV.drop 28) (beAt (exBusV.drop 28) 4 2) ((exBusV.drop 28).length / 12 + 1) 12) :=
+  busPayload_src [9] (exBusV.drop 28) [7] (exBusV.take 28) 8 (by decide) (by decide) (by decide) (by decide)
+example : beAt (exBusV.drop 28) 4 2 = 4 ∧ (busPl (exBusV.drop 28) 4 7 12).length = 3 := by decide
 
 /-! ## the TECMP decoder as the parameter `ext_Decode` of the translated `Decoder::decode`
 
@@ -188,20 +229,22 @@ def tecmpExt (fuel : Nat) (m : Bytes) (data size : Nat) : List TPacket_St :=
 
 /-- on every buffer the instance is exactly the representation of the model's packets -/
 theorem tecmpExt_src (pre b post : Bytes) (fuel : Nat) (hpre : 0 < pre.length)
-    (hmem : (pre ++ b ++ post).length < 2 ^ 64) (hf : b.length ≤ fuel) :
+    (hmem : (pre ++ b ++ post).length < 2 ^ 64) (hf : b.length ≤ fuel)
+    (hsz : byteAt b 5 = 2 → b.length - 16 + beAt b 32 2 < 2 ^ 64) :
     tecmpExt fuel (pre ++ b ++ post) pre.length b.length = (tecmpDecode b).map tRepr := by
   unfold tecmpExt
-  rw [tecmpDecode_src pre b post fuel hpre hmem hf, Option.getD_some, List.filterMap_map]
+  rw [tecmpDecode_src pre b post fuel hpre hmem hf hsz, Option.getD_some, List.filterMap_map]
   simp [Function.comp_def]
 
 def extOfTranslation (fuel : Nat) (m : Bytes) (data size : Nat) : List Packet := (tecmpExt fuel m data size).map tAbs
 
 /-- the instance of `ext_Decode` the translation provides, read as model packets, IS the model's TECMP decoder -/
 theorem ext_of_translation (pre b post : Bytes) (fuel : Nat) (hpre : 0 < pre.length)
-    (hmem : (pre ++ b ++ post).length < 2 ^ 64) (hf : b.length ≤ fuel) :
+    (hmem : (pre ++ b ++ post).length < 2 ^ 64) (hf : b.length ≤ fuel)
+    (hsz : byteAt b 5 = 2 → b.length - 16 + beAt b 32 2 < 2 ^ 64) :
     extOfTranslation fuel (pre ++ b ++ post) pre.length b.length = tecmpDecode b := by
   unfold extOfTranslation
-  rw [tecmpExt_src pre b post fuel hpre hmem hf, List.map_map]
+  rw [tecmpExt_src pre b post fuel hpre hmem hf hsz, List.map_map]
   simp [Function.comp_def, tAbs_tRepr]
 
 /-- composition with `SrcDec.decode_other_src`: the translated `Decoder::decode` with the translated TECMP decoder plugged in, on a
@@ -209,7 +252,8 @@ theorem ext_of_translation (pre b post : Bytes) (fuel : Nat) (hpre : 0 < pre.len
     the model's `tecmpDecode b`; `g` (the reading of left summands) is arbitrary because there are none -/
 theorem decode_tecmp_src (s : Decoder_St) (pre b post : Bytes) (fuel : Nat) (g : PktOut → Packet)
     (hpre : 0 < pre.length) (h8 : 8 ≤ b.length) (h0 : byteAt b 0 = 0)
-    (hmem : (pre ++ b ++ post).length < 2 ^ 64) (hf : b.length ≤ fuel) :
+    (hmem : (pre ++ b ++ post).length < 2 ^ 64) (hf : b.length ≤ fuel)
+    (hsz : byteAt b 5 = 2 → b.length - 16 + beAt b 32 2 < 2 ^ 64) :
     Decoder_decode_obj fuel s (pre ++ b ++ post) pre.length b.length (tecmpExt fuel) =
         some (s, ((tecmpDecode b).map tRepr).map Sum.inr) ∧
       (((tecmpDecode b).map tRepr).map (Sum.inr : TPacket_St → PktOut ⊕ TPacket_St)).map (Sum.elim g tAbs) = tecmpDecode b := by
@@ -219,7 +263,7 @@ theorem decode_tecmp_src (s : Decoder_St) (pre b post : Bytes) (fuel : Nat) (g :
     simpa [h0] using this
   constructor
   · rw [(SrcDec.decode_other_src s (pre ++ b ++ post) pre.length b.length fuel (tecmpExt fuel)).2.2 hpre h8
-      (by simp only [List.length_append]; omega) hb0, tecmpExt_src pre b post fuel hpre hmem hf]
+      (by simp only [List.length_append]; omega) hb0, tecmpExt_src pre b post fuel hpre hmem hf hsz]
   · simp [List.map_map, Function.comp_def, tAbs_tRepr]
 
 end AsamCmp.SrcTec
